@@ -53,6 +53,7 @@ Inductive op :=
 | OCreate | OOpen | OClose | OCrash
 | OWrite (id : N)
 | OWriteCrash (id : N)        (* process dies between the data write and the counter write *)
+| OWriteFail (id : N)         (* the data write fails in the file system (EIO / ENOSPC / EBADF): nothing is applied *)
 | ORead
 | OSetMode (m : mode)         (* INIT / CLOSED stand for an invalid mode string *)
 | OSetRev (v : Z)
@@ -105,6 +106,13 @@ Definition step (s : st) (o : op) : st * res :=
         | WO => (mkst (present s) (Some x') (dcount s) (ddirty s) (drebuild s)
                       (applied s ++ [id]) (snaps s), ROk)
         | _  => (s, RErr)
+        end)
+  | OWriteFail id =>
+      with_rep s (fun x =>
+        (* Replica.WriteAt: mode test, Dirty := true in memory, volume.WriteAt fails, error returned *)
+        match rmode x with
+        | RW | WO => (set_r s (Some (mkrep (rmode x) (cache x) true (irebuild x))), RErr)
+        | _ => (s, RErr)
         end)
   | OWriteCrash id =>
       with_rep s (fun x =>
